@@ -27,6 +27,13 @@ What is modelled (executable, exact over any `[CommRing R] [StarRing R]`):
   Tikhonov term inside the solve; reciprocal rules for Identity / ScalarMul / Diagonal /
   Permutation).
 
+* `lstsqApply` — what `LSTSQSolve(A) @ B` computes (`xnp.lstsq(A.to_dense(), B)`; the solver is a
+  parameter with the contract `lstsq_contract` of `C16_pinv_lstsq`);
+* `lobpcgClauses` — the named clause (recorded finding `lobpcg-k-ge-n`) of the `LOBPCG` path; `sigmaDt` — the dtype of
+  `Sigma` (`lanczos_eigs`: real eigenvalues of `eigh(T)`; `lobpcg`: cast to `A.dtype`);
+* `KrylovOut.lazyBack` — the lazy product whose `to_dense()` the Krylov rules take
+  (`Lemmas/SvdLink.lean` proves that `to_dense` of it IS the matrix formula: `C16_svd_krylov_link`).
+
 PARAMETERS (`Params`): LAPACK `svd`, `lanczos_eigs` / `lobpcg` on the Gram operator, `sqrt`, `abs`,
 the reciprocal, the order on real scalars, the table of `get_precision`.  Their contracts are hypotheses of the
 theorems in `Properties/C16.lean`.
@@ -101,7 +108,8 @@ structure Eigs (R : Type) where
 structure Params (R : Type) where
   lapackSvd : Nat → Nat → MatF R → SvdFull R
   lanczosEigs : Op R → Eigs R
-  lobpcgEigs : Op R → Eigs R
+  /-- `lobpcg(G, max_iters, largest)`: the first argument is `largest` (the rule passes `which == "LM"`) -/
+  lobpcgEigs : Bool → Op R → Eigs R
   sqrt : R → R
   inv : R → R
   /-- `a < b` on real scalars -/
@@ -213,12 +221,22 @@ structure KrylovOut (R : Type) where
   triple : Triple R
   /-- the back-substituted factor by the formula, on the represented matrices -/
   specBack : MatV R
+  /-- the lazy product whose `to_dense()` the rule takes: `A @ V @ inv(Sigma)` resp.
+  `inv(Sigma) @ U.H @ A` -/
+  lazyBack : Op R
+
+/-- dtype of `Sigma` in the Krylov rules: `lanczos_eigs` returns the (real) eigenvalues of `eigh(T)`;
+`lobpcg` (`lobpcgRule = true`) casts its eigenvalues to `A.dtype` -/
+def sigmaDt (lobpcgRule : Bool) (dt : DType) : DType :=
+  match lobpcgRule with
+  | true => dt
+  | false => realDt dt
 
 /-- the Krylov rules (`Lanczos`; `LOBPCG` = always the `A.H @ A` branch) -/
 def svdKrylov (P : Params R) (eigs : Op R → Eigs R) (forceTall : Bool) (A : Op R) (k : Int)
     (w : Which) : Except String (KrylovOut R) := do
   let sl ← getSlice k w
-  let dtR := realDt A.dtype
+  let dtR := sigmaDt forceTall A.dtype
   if forceTall || A.cols ≤ A.rows then
     let G ← asOp (Ex.dotRule A.adjointRule A)
     let e := eigs G
@@ -233,7 +251,7 @@ def svdKrylov (P : Params R) (eigs : Op R → Eigs R) (forceTall : Bool) (A : Op
     let D := Pr.td
     let U := orthonormal (.dense Pr.dtype Pr.rows Pr.cols D.f)
     let spec := forceV A.rows kk (backsubU A.cols kk A.den.f V.den.f sinv)
-    pure ⟨true, G, e.W.cols, pos, ⟨U, .diag dtR kk sig, V⟩, spec⟩
+    pure ⟨true, G, e.W.cols, pos, ⟨U, .diag dtR kk sig, V⟩, spec, Pr⟩
   else
     let G ← asOp (Ex.dotRule A A.adjointRule)
     let e := eigs G
@@ -249,7 +267,16 @@ def svdKrylov (P : Params R) (eigs : Op R → Eigs R) (forceTall : Bool) (A : Op
     let Vm := forceV Pr.cols Pr.rows (conjM (transposeM D.f))
     let V := orthonormal (.dense Pr.dtype Pr.cols Pr.rows Vm.f)
     let spec := forceV A.cols kk (backsubV A.rows kk A.den.f U.den.f sinv)
-    pure ⟨false, G, e.W.cols, pos, ⟨U, .diag dtR kk sig, V⟩, spec⟩
+    pure ⟨false, G, e.W.cols, pos, ⟨U, .diag dtR kk sig, V⟩, spec, Pr⟩
+
+/-- Named clause of the `LOBPCG` rule (recorded in `known_findings.json`; the eigensolver is a PARAMETER
+of the model, this is the argument class on which the real eigensolver cannot meet the request):
+`lobpcg-k-ge-n` — `lobpcg` holds `min(n - 1, max_iters)` eigenpairs of the `n × n` Gram operator, so
+`k ≥ n` returns fewer than `k` triplets (pinned by the test-suite of /repo).
+(The former clauses `lobpcg-complex-operator` and `lobpcg-sm-not-smallest` were repaired in /repo
+7c689b5: complex work dtype, `largest = (which == "LM")`.) -/
+def lobpcgClauses (A : Op R) (k : Int) : List String :=
+  if (A.cols : Int) ≤ k then ["lobpcg-k-ge-n"] else []
 
 /-- `svd(A, k, which, alg)` -/
 def svd (P : Params R) (A : Op R) (k : Int) (w : Which) (alg : Alg) : Except String (Triple R) :=
@@ -258,7 +285,7 @@ def svd (P : Params R) (A : Op R) (k : Int) (w : Which) (alg : Alg) : Except Str
   | .diagonal => .ok (svdDiagonal P A)
   | .dense => .ok (svdDense P A).2
   | .lanczos => (svdKrylov P P.lanczosEigs false A k w).map (·.triple)
-  | .lobpcg => (svdKrylov P P.lobpcgEigs true A k w).map (·.triple)
+  | .lobpcg => (svdKrylov P (P.lobpcgEigs (match w with | .LM => true | _ => false)) true A k w).map (·.triple)
 
 /-! ## pinv -/
 
@@ -309,6 +336,8 @@ def pinvCG (P : Params R) (A : Op R) : PinvOut R :=
     | .error e => .err e
     | .ok reg =>
       if M.rows != M.cols || M.cols != AH.rows then .err "error:AssertionError" else
+      -- `dot` drops an `Identity` right operand only when the left operand already has the promoted
+      -- dtype (/repo 9457777); here it always has: the sum's dtype is that of `M = A.H @ A`, i.e. of `A.H`
       let tail := if Ex.isIdentity AH then [] else (Ex.prodMembers AH).getD [AH]
       .cg ⟨M, cons, reg, AH, tail⟩
 
@@ -337,6 +366,15 @@ def pinv (P : Params R) (A : Op R) (alg : PAlg) : PinvOut R :=
     | none => .err "unreachable"
   | .lstsq => .lstsq A
   | .cg => pinvCG P A
+
+/-- what the LSTSQ rule computes on a right-hand side `B` (`rows × nb`): `LSTSQSolve.__init__` stores
+`A.to_dense()`, `_matmat(X) = xnp.lstsq(self.A, X)`.  `lstsq m n M nb B` is the PARAMETER
+`np.linalg.lstsq(M, B, rcond=None)[0]` (`M : m × n`, `B : m × nb`, result `n × nb`); its contract
+(hypothesis `lstsq_contract` of `C16_pinv_lstsq`): every column of the result is the minimum-norm
+least-squares solution for the corresponding column of `B`. -/
+def lstsqApply (lstsq : Nat → Nat → MatF R → Nat → MatF R → MatF R) (A : Op R) (nb : Nat)
+    (B : MatF R) : MatF R :=
+  lstsq A.rows A.cols A.td.f nb B
 
 /-- what the CG rule computes on a right-hand side `B` (`rows × b`), given the solver:
 `cg(M, A.H B) + cons · (A.H B)` -/
